@@ -213,11 +213,17 @@ class DocGen:
                 # the position has no type (anything is allowed there), and the literal is accepted
                 self.nvar += 1
                 n = "v%d" % self.nvar
-                self.vars[n] = {"type": rng.choice([("named", "Int"), ("named", b), ("list", ("named", "String"))]), "default": None}
-                self.scope_stack[-1]["vars"].add(n)
                 inner = ("var", n)
-                return rng.choice([("obj", [("a", inner)]), ("list", [inner]), ("obj", [("a", ("list", [("int", "1"), inner]))]),
-                                   ("list", [("obj", [("b", inner)])])])
+                shape = rng.randrange(4)
+                # shape 1, `[ $v ]` DIRECTLY at the scalar position: the items of a list literal written at a non-list
+                # position are typed with the position's nullable type (TypeInfoVisitor.enter_list_value, as graphql-js)
+                # and VariablesInAllowedPosition compares against it - only a variable of that scalar is allowed there.
+                # Below an object field (shapes 0, 2, 3) the position has no type: any variable type.
+                vt = ("named", b) if shape == 1 else rng.choice([("named", "Int"), ("named", b), ("list", ("named", "String"))])
+                self.vars[n] = {"type": vt, "default": None}
+                self.scope_stack[-1]["vars"].add(n)
+                return [("obj", [("a", inner)]), ("list", [inner]), ("obj", [("a", ("list", [("int", "1"), inner]))]),
+                        ("list", [("obj", [("b", inner)])])][shape]
             if r < 0.25:
                 return ("obj", [("k%d" % i, rng.choice([("int", "1"), ("str", "s"), ("null",), ("list", [("int", "2")]),
                                                         ("obj", [("n", ("bool", True))])])) for i in range(rng.randint(0, 3))])
